@@ -6,16 +6,18 @@ Open Scope gen_scope.
 (* bit-boundary values of a k-bit field *)
 Definition gbits (k : N) : G N :=
   freq (gint k) [ (3, gint k); (1, gret (2 ^ (k - 1))); (1, gret (2 ^ (k - 1) - 1)); (1, gret (2 ^ k - 1)); (1, gret 1); (1, gret 0) ].
+(* versions: the registered DTLS / TLS values most of the time (code may single them out), any 16-bit value otherwise *)
+Definition gdversion : G N := freq (gret 65277) [ (5, elem 65277 [65279; 65277; 65278; 771; 768; 65276]); (2, gint 16) ].
 Definition gdch : G DTLSClientHelloC :=
-  do v <- elem 65277 [65279; 65277; 771; 65278]; do r <- grandom32; do sid <- gsid;
-  do ck <- (do n <- freq (gret 0) [(3, gret 0); (3, gsmall 40); (1, gret 255); (1, gret 32)]; gslice n);
+  do v <- gdversion; do r <- grandom32; do sid <- gsid;
+  do ck <- (do n <- freq (gret 0) [(3, gret 0); (3, gsmall 40); (1, gret 255); (1, gret 32); (1, gret 33); (1, gsize 255)]; gslice n);
   do c <- gu16list 20; do co <- gu8list 4; do e <- gext;
   gret (mkDCH v r sid ck c co e).
 Definition gdbody : G DTLSBody :=
   oneof (gret (DServerDone (mkS 0 []))) [
     (do c <- gdch; gret (DClientHello c));
-    (do v <- gint 16; do n <- gsmall 40; do c <- gslice n; gret (DHelloVerifyRequest v c));
-    (do v <- gint 16; do r <- grandom32; do sid <- gsid; do c <- gint 16; do co <- gint 8; do e <- gext;
+    (do v <- gdversion; do n <- freq (gsmall 40) [(3, gsmall 40); (3, gsize 255); (1, gret 32); (1, gret 33)]; do c <- gslice n; gret (DHelloVerifyRequest v c));
+    (do v <- gdversion; do r <- grandom32; do sid <- gsid; do c <- gint 16; do co <- gint 8; do e <- gext;
      gret (DServerHello (mkSH v r sid c co e)));
     (do n <- gsmall 3; do l <- glist (N.to_nat n) gsmallblob; gret (DCertificate l));
     (do s <- gsmallblob; gret (DServerDone s));
